@@ -218,6 +218,9 @@ type wcfg struct {
 	// PreSession runs between the construction of the handler and that of the session: what an application
 	// registers on the handler first (a filter, say) runs in front of the session's own hooks
 	PreSession func(h *simplefixgo.DefaultHandler)
+	// Settings (acceptor): the settings object handed to the constructor, when several sessions are to be built
+	// from one object as an acceptor callback naturally does
+	Settings *session.LogonSettings
 }
 
 type world struct {
@@ -302,9 +305,13 @@ func newWorld(c wcfg) *world {
 		if c.LogonTimeout > 0 {
 			lt = c.LogonTimeout
 		}
-		w.s, err = session.NewAcceptorSession(optsFor(c), w.h, &session.LogonSettings{
-			LogonTimeout: lt, HeartBtLimits: &session.IntLimits{Min: c.HbMin, Max: c.HbMax}, CloseTimeout: c.CloseTimeout,
-		}, func(r *session.LogonSettings) error {
+		set := c.Settings
+		if set == nil {
+			set = &session.LogonSettings{
+				LogonTimeout: lt, HeartBtLimits: &session.IntLimits{Min: c.HbMin, Max: c.HbMax}, CloseTimeout: c.CloseTimeout,
+			}
+		}
+		w.s, err = session.NewAcceptorSession(optsFor(c), w.h, set, func(r *session.LogonSettings) error {
 			w.lastLogonCB = r
 			if c.RefuseLogon != nil {
 				return c.RefuseLogon(r)
